@@ -594,7 +594,10 @@ func postprocessParsed(lookup objLookup) {
 		}
 		if len(l) > 1 {
 			for _, c := range l[1:] {
-				words := strings.Split(c.parsed, " ")
+				words := strings.Fields(c.parsed)
+				if len(words) < 4 {
+					continue
+				}
 				// Strip (interface-name)
 				if words[2][0] == '(' {
 					copy(words[2:], words[3:])
